@@ -1646,7 +1646,10 @@ def m_bt_entry_or_insert(ex, n, a, f):
         if '::or_insert_with' in n:
             v = ex.call_value(a[1], [])
         elif '::or_default' in n:
-            raise Unsupported('Entry::or_default')
+            d = f.get('aux', {}).get('Default::default')
+            if not d:
+                raise Unsupported('Entry::or_default without Default aux')
+            v = ex.call(d, [])
         else:
             v = a[1]
         e.map.entries.insert(i, [sort_key(ex, e.key), e.key, Cell(v)])
@@ -1948,3 +1951,43 @@ def m_vecdeque_into_iter(ex, n, a, f):
 @model(r'^<std::collections::vec_deque::(Iter|IterMut|IntoIter)<.*> as std::iter::(Iterator|DoubleEndedIterator)>::(next|next_back)$')
 def m_vecdeque_iter_next(ex, n, a, f):
     return m_iter_next(ex, n, a, f) if n.endswith('::next') else m_iter_next_back(ex, n, a, f)
+
+
+@model(r'^std::vec::Vec::<.*>::dedup_by_key::<')
+def m_vec_dedup_by_key(ex, n, a, f):
+    v = ex.deref(a[0])
+    out = []
+    prev = None
+    for c in v.cells:
+        k = ex.call_value(a[1], [Ref(c)])
+        if out:
+            same = val_eq(k, prev) if not isinstance(k, (StringV, StrRef)) else str_eq(ex, k.chars, prev.chars)
+            if ex.branch(same, 'dedup_by_key'):
+                continue
+        out.append(c)
+        prev = k
+    v.cells[:] = out
+    return UNIT
+
+
+@model(r'^std::vec::Vec::<.*>::dedup_by::<')
+def m_vec_dedup_by(ex, n, a, f):
+    v = ex.deref(a[0])
+    out = []
+    for c in v.cells:
+        if out and ex.branch(ex.call_value(a[1], [Ref(c), Ref(out[-1])]), 'dedup_by'):
+            continue
+        out.append(c)
+    v.cells[:] = out
+    return UNIT
+
+
+@model(r'^std::vec::Vec::<.*>::retain::<', r'^std::vec::Vec::<.*>::retain_mut::<')
+def m_vec_retain(ex, n, a, f):
+    v = ex.deref(a[0])
+    out = []
+    for c in v.cells:
+        if ex.branch(ex.call_value(a[1], [Ref(c)]), 'retain'):
+            out.append(c)
+    v.cells[:] = out
+    return UNIT
